@@ -115,7 +115,8 @@ def run_tlc_replay(run, name, module, cfg_kwargs, prop, workers=4, threads=8, ti
     meta = os.path.join(d, "meta-" + name)
     tlclog = os.path.join(d, name + ".tlc.log")
     rvout = os.path.join(d, name + ".rv.out")
-    cmd_tlc = ["timeout", str(timeout), "tlc", "-workers", str(workers)] + list(tlc_args) + ["-noGenerateSpecTE", "-metadir", meta,
+    # -checkpoint 0: the in-memory StateDeque queue cannot be checkpointed (TLC would abort after 30 minutes)
+    cmd_tlc = ["timeout", str(timeout), "tlc", "-workers", str(workers), "-checkpoint", "0"] + list(tlc_args) + ["-noGenerateSpecTE", "-metadir", meta,
                "-cleanup", "-config", cfg, module]
     cmd_rv = [RV, "replay", "--property", prop, "--replay-dir", run.replay_dir, "--tlc-log", tlclog,
               "--threads", str(threads)] + list(extra_rv)
@@ -174,7 +175,7 @@ def run_record_validate(run, name, driver, trace_module, prop, site, rounds, sha
         env["FOCUS"] = focus or ""
         env["VERIF_GEN"] = os.path.join(WORK, "gen")
         meta = os.path.join(d, "meta-%s-%d" % (name, shard))
-        r = subprocess.run(["timeout", str(timeout), "tlc", "-workers", "1", "-noGenerateSpecTE", "-metadir", meta, "-cleanup",
+        r = subprocess.run(["timeout", str(timeout), "tlc", "-workers", "1", "-checkpoint", "0", "-noGenerateSpecTE", "-metadir", meta, "-cleanup",
                             "-config", cfg, trace_module], cwd=SPEC, env=env, capture_output=True, text=True)
         shutil.rmtree(meta, ignore_errors=True)
         out = r.stdout
